@@ -230,6 +230,14 @@ func (w *World) releaseRO(sv *Server) {
 			p.ev.run = func() {}
 		}
 		w.applySetRO(sv, p.super)
+		if p.c.ev != nil {
+			p.c.ev.Err = ""
+			p.c.ev.After = sv.stateSig()
+			p.c.ev.Effective = p.c.ev.Before != p.c.ev.After
+			if p.c.ctx != nil && p.c.ctx.Err() != nil {
+				p.c.ev.CallerGone = true
+			}
+		}
 		w.s.finishSQL(p.c, sqlResult{}, true)
 	}
 }
@@ -357,6 +365,10 @@ func (w *World) crashServer(sv *Server, lossy int) {
 	for _, p := range sv.pendingRO {
 		if p.ev != nil {
 			p.ev.run = func() {}
+		}
+		if p.c.ev != nil {
+			p.c.ev.Err = "invalid connection"
+			p.c.ev.Applied = false
 		}
 		s.finishSQL(p.c, sqlResult{err: errInvalidConn}, false)
 	}
@@ -523,6 +535,10 @@ func (w *World) exec(sv *Server, c *call) (res sqlResult, deferred bool) {
 					if x == p {
 						sv.pendingRO = append(sv.pendingRO[:i], sv.pendingRO[i+1:]...)
 						s.stats.Probes["set_ro_lock_wait_timeout"]++
+						if c.ev != nil {
+							c.ev.Err = "Error 1205: Lock wait timeout exceeded"
+							c.ev.Applied = false
+						}
 						s.finishSQL(c, sqlResult{err: myErr(1205, "Lock wait timeout exceeded; try restarting transaction")}, false)
 						return
 					}
